@@ -16,12 +16,12 @@ Open Scope Z_scope.
 
 (* ---------------------------------------------------------------- any file contents *)
 
-(* A user option holds exactly the supplied value after construction: for every pair of files, every
-   dimension, every user dict (distinct keys; the reserved name is treated separately below),
-   whatever state the process and the other instances are in. *)
+(* A user option holds exactly the supplied value after a construction that completes: for every
+   pair of files, every dimension, every user dict (a Python dict: distinct keys), whatever state the
+   process and the other instances are in. *)
 Theorem C20_user_wins :
   forall (w : world) (i : nat) (b a : file) (D : Z) (u : nat),
-    NoDup (keys (callers w u)) -> ~ In reserved (keys (callers w u)) ->
+    NoDup (keys (callers w u)) -> snd (construct w i b a D (Some u)) = Done ->
     forall k v, In (k, v) (callers w u) ->
       get k (store_of (insts (fst (construct w i b a D (Some u))) i)) = Some v.
 Proof. exact user_wins. Qed.
@@ -44,7 +44,7 @@ Print Assumptions C20_user_value_survives_loads.
 Theorem C20_dependent_defaults_see_user_value :
   forall (w : world) (i : nat) (b a : file) (D : Z) (u : nat)
          (k' : string) (deps' : list string) (k : string) (v : value),
-    NoDup (keys (callers w u)) -> ~ In reserved (keys (callers w u)) -> NoDup (names a) ->
+    NoDup (keys (callers w u)) -> snd (construct w i b a D (Some u)) = Done -> NoDup (names a) ->
     In (k', deps') a -> ~ In k' (keys (callers w u)) -> k' <> reserved ->
     In k deps' -> k <> dname -> In (k, v) (callers w u) ->
     exists args, get k' (store_of (insts (fst (construct w i b a D (Some u))) i)) = Some (VDefault k' args) /\
@@ -52,17 +52,27 @@ Theorem C20_dependent_defaults_see_user_value :
 Proof. exact dependent_defaults_see_user_value. Qed.
 Print Assumptions C20_dependent_defaults_see_user_value.
 
-(* Construction raises ValueError exactly when some user key is defined in neither file,
-   and otherwise completes. *)
+(* For EVERY user dict: construction raises ValueError exactly when some user key is defined in
+   neither file or is the reserved name "useroptions", and otherwise completes. *)
 Theorem C20_unknown_rejected :
   forall (w : world) (i : nat) (b a : file) (D : Z) (u : nat),
-    ~ In reserved (keys (callers w u)) ->
     (snd (construct w i b a D (Some u)) = Raised "ValueError" <->
-     exists k, In k (keys (callers w u)) /\ ~ In k (names b ++ names a)) /\
+     exists k, In k (keys (callers w u)) /\ (~ In k (names b ++ names a) \/ k = reserved)) /\
     (snd (construct w i b a D (Some u)) = Done <->
-     forall k, In k (keys (callers w u)) -> In k (names b ++ names a)).
+     forall k, In k (keys (callers w u)) -> In k (names b ++ names a) /\ k <> reserved).
 Proof. exact unknown_rejected. Qed.
 Print Assumptions C20_unknown_rejected.
+
+(* The reserved name in the user's dict (the repaired finding): ValueError, no Options object is bound,
+   no instance and no caller dict is written. *)
+Theorem C20_reserved_name_rejected :
+  forall (w : world) (i : nat) (b a : file) (D : Z) (u : nat),
+    In reserved (keys (callers w u)) ->
+    snd (construct w i b a D (Some u)) = Raised "ValueError" /\
+    (forall j, insts (fst (construct w i b a D (Some u))) j = insts w j) /\
+    (forall v, callers (fst (construct w i b a D (Some u))) v = callers w v).
+Proof. exact reserved_name_rejected. Qed.
+Print Assumptions C20_reserved_name_rejected.
 
 (* validate_option_names on any object in any state: raises iff a stored key is not a file name;
    changes nothing. *)
@@ -81,7 +91,7 @@ Print Assumptions C20_validate_exact.
    operations ALONE from any other process state w' (any left-over global D, any other instances). *)
 Theorem C20_no_leak :
   forall (ops : list op) (w w' : world) (i : nat),
-    Forall binds_D ops -> callers_clean w ->
+    Forall binds_D ops ->
     (forall u, callers w' u = callers w u) -> insts w' i = insts w i ->
     insts (fst (run w ops)) i = insts (fst (run w' (proj i ops))) i /\
     outs_of i ops (snd (run w ops)) = snd (run w' (proj i ops)).
@@ -89,24 +99,25 @@ Proof. exact no_leak. Qed.
 Print Assumptions C20_no_leak.
 
 (* Every other option holds its default for the instance's OWN dimension: in any interleaving as
-   above, an instance constructed with (D, user) over files satisfying the static condition holds
+   above, an instance constructed with (D, user) (its Init did not raise) over files satisfying the static condition holds
    the user's values and, for every other key e of the files, e's default text applied to D and to
    the FINAL values of the keys e reads (so a dependent default is the function of the user's value
    where the user supplied one, and of the documented default otherwise). *)
 Theorem C20_defaults_for_own_D :
-  forall (ops : list op) (w : world) (i : nat) (b a : file) (D : Z) (u : nat),
-    Forall binds_D ops -> callers_clean w -> files_ok b a -> NoDup (keys (callers w u)) ->
+  forall (ops : list op) (w : world) (i : nat) (b a : file) (D : Z) (u : nat) (o2 o3 : outcome),
+    Forall binds_D ops -> files_ok b a -> NoDup (keys (callers w u)) ->
     proj i ops = construct_ops i b a D (Some u) ->
+    outs_of i ops (snd (run w ops)) = [Done; o2; o3] ->
     let st := store_of (insts (fst (run w ops)) i) in
     (forall k v, In (k, v) (callers w u) -> get k st = Some v) /\
     (forall e, In e (b ++ a) -> ~ In (fst e) (keys (callers w u)) -> get (fst e) st = Some (spec_value D st e)).
 Proof. exact defaults_for_own_D. Qed.
 Print Assumptions C20_defaults_for_own_D.
 
-(* The caller's dict is never written, by any sequence of operations (update() copies entries). *)
+(* The caller's dict is never written, by any sequence of operations on any dicts (update() copies
+   entries; a dict naming the reserved key is rejected before anything is done with it). *)
 Theorem C20_caller_dict_untouched :
-  forall (ops : list op) (w : world),
-    callers_clean w -> forall u, callers (fst (run w ops)) u = callers w u.
+  forall (ops : list op) (w : world) (u : nat), callers (fst (run w ops)) u = callers w u.
 Proof. exact caller_dict_untouched. Qed.
 Print Assumptions C20_caller_dict_untouched.
 
@@ -125,36 +136,44 @@ Print Assumptions real_files_depends_on_D_exact.
 
 (* the property for BADS as shipped: any process history, any D, any user dict *)
 Theorem C20_real_files :
-  forall (ops : list op) (w : world) (i : nat) (D : Z) (u : nat),
-    Forall binds_D ops -> callers_clean w -> NoDup (keys (callers w u)) ->
+  forall (ops : list op) (w : world) (i : nat) (D : Z) (u : nat) (o2 o3 : outcome),
+    Forall binds_D ops -> NoDup (keys (callers w u)) ->
     proj i ops = construct_ops i basic_entries advanced_entries D (Some u) ->
+    outs_of i ops (snd (run w ops)) = [Done; o2; o3] ->
     let st := store_of (insts (fst (run w ops)) i) in
     (forall k v, In (k, v) (callers w u) -> get k st = Some v) /\
     (forall e, In e (basic_entries ++ advanced_entries) -> ~ In (fst e) (keys (callers w u)) ->
                get (fst e) st = Some (spec_value D st e)).
 Proof.
-  intros ops w i D u Hb Hc Hnd Hp.
-  exact (defaults_for_own_D ops w i basic_entries advanced_entries D u Hb Hc
-           (deps_ok_files_ok _ _ real_files_dependencies_ok) Hnd Hp).
+  intros ops w i D u o2 o3 Hb Hnd Hp Ho.
+  exact (defaults_for_own_D ops w i basic_entries advanced_entries D u o2 o3 Hb
+           (deps_ok_files_ok _ _ real_files_dependencies_ok) Hnd Hp Ho).
 Qed.
 Print Assumptions C20_real_files.
 
-(* REFUTED clause (known finding "reserved-name-useroptions-accepted"): the name "useroptions" is
-   defined in neither file, yet a user dict {"useroptions": {"n_basis"}} is accepted at construction;
-   the caller's set object is extended in place and the default of n_basis is silently missing. *)
-Theorem C20_reserved_name_refuted :
-  exists (user : store),
-    let w := with_callers world0 [(0%nat, user)] in
-    let r := construct w 0 basic_entries advanced_entries 2 (Some 0%nat) in
-    mem reserved (keys user) = true /\
-    mem reserved (names basic_entries ++ names advanced_entries) = false /\
-    snd r = Done /\
-    callers (fst r) 0 = [(reserved, VSet ["n_basis"%string; reserved])] /\
-    get "n_basis"%string (store_of (insts (fst r) 0)) = None.
+(* ... and it raises ValueError exactly for user dicts with a name the two real files do not define
+   ("useroptions" is such a name) *)
+Theorem C20_real_files_unknown_rejected :
+  forall (w : world) (i : nat) (D : Z) (u : nat),
+    (snd (construct w i basic_entries advanced_entries D (Some u)) = Raised "ValueError" <->
+     exists k, In k (keys (callers w u)) /\ ~ In k (names basic_entries ++ names advanced_entries)) /\
+    (snd (construct w i basic_entries advanced_entries D (Some u)) = Done <->
+     forall k, In k (keys (callers w u)) -> In k (names basic_entries ++ names advanced_entries)).
 Proof.
-  exists [(reserved, VSet ["n_basis"%string])]. vm_compute. repeat split; reflexivity.
+  intros w i D u.
+  exact (unknown_rejected_files w i basic_entries advanced_entries D u
+           (fo_reserved _ _ (deps_ok_files_ok _ _ real_files_dependencies_ok))).
 Qed.
-Print Assumptions C20_reserved_name_refuted.
+Print Assumptions C20_real_files_unknown_rejected.
+
+(* regression witness of the repaired finding "reserved-name-useroptions-accepted" on the real files *)
+Example C20_reserved_name_witness :
+  let w := with_callers world0 [(0%nat, [(reserved, VSet ["n_basis"%string])])] in
+  let r := construct w 0 basic_entries advanced_entries 2 (Some 0%nat) in
+  snd r = Raised "ValueError" /\
+  callers (fst r) 0 = [(reserved, VSet ["n_basis"%string])] /\
+  store_of (insts (fst r) 0) = [].
+Proof. vm_compute. repeat split; reflexivity. Qed.
 
 (* ---------------------------------------------------------------- non-vacuity and corner cases *)
 
@@ -169,8 +188,9 @@ Example C20_interleaving_witness :
     [("n"%string, VUser 9); ("disp"%string, VDefault "disp" []); ("tol"%string, VDefault "tol" []);
      ("noise"%string, VDefault "noise" [("tol"%string, VDefault "tol" [])]);
      ("m"%string, VDefault "m" [(dname, VInt 5); ("n"%string, VUser 9)])] /\
-  Forall binds_D interleaved /\ callers_clean wAB /\
-  proj 0 interleaved = construct_ops 0 fA fB 2 (Some 0%nat).
+  Forall binds_D interleaved /\
+  proj 0 interleaved = construct_ops 0 fA fB 2 (Some 0%nat) /\
+  outs_of 0 interleaved (snd (run wAB interleaved)) = [Done; Done; Done].
 Proof. exact interleaved_stores. Qed.
 
 (* on the real files: user tol_fun is seen by tol_noise and hedge_beta; D-dependent defaults use own D
